@@ -58,6 +58,10 @@ pub struct Search {
     limits: SearchLimits,
 
     info: Info,
+
+    /// The move sent in the last bestmove line (None = no bestmove sent yet, Some(None) = 0000).
+    #[cfg(rce_verif)]
+    verif_announced: Option<Option<Ply>>,
 }
 
 impl Logger for Search {}
@@ -88,6 +92,9 @@ impl Search {
             running: Arc::new(AtomicBool::new(true)),
 
             info: Info::new(),
+
+            #[cfg(rce_verif)]
+            verif_announced: None,
         }
     }
 
@@ -176,6 +183,10 @@ impl Search {
             .info
             .best_move
             .or_else(|| self.original_board.get_legal_moves().first().copied());
+        #[cfg(rce_verif)]
+        {
+            self.verif_announced = Some(best_move);
+        }
         match best_move {
             Some(best_move) => self.log(format!("bestmove {best_move}").as_str()),
             None => self.log("bestmove 0000"),
@@ -811,6 +822,13 @@ impl Search {
     #[allow(dead_code)]
     pub const fn verif_info(&self) -> (Option<Ply>, Option<Score>, Depth) {
         (self.info.best_move, self.info.best_score, self.info.seldepth)
+    }
+
+    /// The move of the bestmove line this search has sent, if it has sent one.
+    #[cfg(rce_verif)]
+    #[allow(dead_code)]
+    pub const fn verif_announced(&self) -> Option<Option<Ply>> {
+        self.verif_announced
     }
 }
 
